@@ -27,6 +27,17 @@ def pdk_module(name):
     return sys.modules["asap7_hdl21.pdk"]
 
 
+def pdk_package(name):
+    """The package a user imports (it re-exports the registered module's content), if there is one."""
+    import sys
+
+    pm = pdk_module(name)
+    pkg = sys.modules.get(pm.__name__.rsplit(".", 1)[0])
+    if pkg is not None and pkg is not pm and getattr(pkg, "compile", None) is pm.compile:
+        return pkg
+    return None
+
+
 def tables(name):
     """{class: {key: ExternalModule}} of a PDK's device tables (read-only introspection), or {} when
     the PDK package no longer has tables of these names (the check then leaves that PDK alone)."""
@@ -419,7 +430,11 @@ def _session(scn):
                     elif via == "name":
                         h.pdk.compile(src, pdk=pm.__name__)
                     elif via == "module":
-                        h.pdk.compile(src, pdk=pm)
+                        # the PDK as its user holds it: the registered module, or the package that re-exports it
+                        pkg = pdk_package(pname) if hash64(scn.get("seed"), "viapkg", len(res["probes"])) % 2 else None
+                        h.pdk.compile(src, pdk=pkg or pm)
+                        if pkg is not None:
+                            probe("compiled_by_package")
                     else:
                         pm.compile(src)
                 except Exception as e:  # noqa
